@@ -28,7 +28,7 @@ def evaluate(ck, data, rules, docg):
                 else:
                     ck.violation("overlapping-edits:" + rid, "%s: the edits %s hands to update overlap or are out of order and change length: the slices it analysed are not the slices that get replaced (spans %r)" % (T.tag(o), rid, r.get("spans")), T.rep(o, r, oracle="wf"))
         if o["status"] == "ok" and not split_fired and o.get("run_c01") is False:
-            ck.violation("run-changes-code-tokens:" + ",".join(sorted({r["rule"] for r in o["records"] if not r.get("c01", True)})[:3]), "%s: the essential code tokens after the run differ from those before it" % T.tag(o), T.rep(o, oracle="run"))
+            ck.violation("run-changes-code-tokens:" + ",".join(sorted({r["rule"] for r in o["records"] if not r.get("c01", True) or not r.get("wf", True)})[:3]), "%s: the essential code tokens after the run differ from those before it" % T.tag(o), T.rep(o, oracle="run"))
         if o.get("reread_rejected"):
             ck.violation("fixed-text-rejected:" + ",".join(sorted({r["rule"] for r in o["records"] if not r.get("wf", True)})[:2]), "%s: the fixed text is no longer accepted: %s" % (T.tag(o), o["reread_rejected"]), T.rep(o, oracle="reread"))
     ck.sample({"edit_obligations_passed": n_ok, "via_parenthesis_relaxation": n_paren, "split_rule_applications_deferred": n_split})
